@@ -832,8 +832,12 @@ class List(list, base.Symbolic, pg_typing.CustomTyping):
     if base.treats_as_sealed(self):
       raise base.WritePermissionError('Cannot sort a sealed List.')
     old_values = list(self.sym_values())
-    super().sort(key=key, reverse=reverse)
-    self._sync_children()
+    try:
+      super().sort(key=key, reverse=reverse)
+    finally:
+      # NOTE: a sort that fails midway (incomparable keys) leaves the list
+      # partially reordered: the elements are re-addressed in any case.
+      self._sync_children()
     self._notify_reordering(old_values)
 
   def reverse(self) -> None:
